@@ -11,6 +11,9 @@ slots of input objects were rebound (identity level), which slots of the writer'
 
 Model side (coq/model/Store.v, Iso.v, extracted): the same history in the store model -> predicted snapshot of every
 set after every op, error exit, span token counts, open_span, copy footprint, deepcopy count.
+Wave 7: the same histories with the writers executed as HEAP PROGRAMS (coq/model/HeapProg.v, request 902: statements that
+load from / store into any object, instance registers, rendering state machines) - compared with the real heap and with the
+store model; request 903 re-evaluates the ownership and assigned-before-read analyses (see heap_program_stream).
 Property oracle: Coq ok_c09 (coq/spec/SpecIso.v) on the implementation's digests: no write changes any set (also when
 it raises); equal (writer class, options, set snapshot) => equal bytes.  Across processes: the same histories under
 PYTHONHASHSEED 0,1,2,3,17,4242 must give identical outputs.
@@ -142,9 +145,10 @@ def run(ctx):
                     pass
             res["violations"].append(violation_record(h, i, clause, extra))
     C.detail_summary(histories, r["details"], res)
+    heap_program_stream(histories, r, res)
     # correspondence streams actually run: (1) model snapshots vs real heap per operation, (2) pristine twins,
     # (3) the same histories in processes with other hash seeds (each evaluated by the oracle on its own)
-    res["streams"] = 1 + (1 if pairs else 0) + (1 if len(r["by_seed"]) > 1 else 0)
+    res["streams"] = 2 + (1 if pairs else 0) + (1 if len(r["by_seed"]) > 1 else 0)   # 2 = store model + heap programs
     dist["oracle_evaluated_in_processes_with_hashseed"] = sorted(r["by_seed"])
     for (hi, d) in r["disagreements"][:40]:
         res["disagreements"].append({"history": histories[hi], "op_index": d["i"], "what": d["what"],
@@ -182,7 +186,13 @@ def run(ctx):
                    "is used more than once or that has a pristine twin; distinct histories counted.")
     res["samples"] = [C.describe_history(h) for h in histories[len(CORPUS):len(CORPUS) + 5]]
     res["clauses"] = {
-        "theorem": ["THE MODEL MEETS THE ORACLE: ok_c09 evaluated on the model's own observations of any history of reads, "
+        "theorem": ["HEAP PROGRAMS (wave 7): each writer is a program that may load from and store into any object, the "
+                    "argument included; a static ownership analysis is proved sound for EVERY program (accepted => no "
+                    "pre-existing location assigned, normal and raising exits, any store / options / history); the eight "
+                    "writer programs are accepted; the variants without the deepcopy, with copy.copy, or assigning before "
+                    "the copy are rejected and refuted (C09_ownership_analysis_sound, C09_heap_program_frame, "
+                    "C09_writer_programs_owned, C09_copy_discipline_variants_refuted)",
+                    "THE MODEL MEETS THE ORACLE: ok_c09 evaluated on the model's own observations of any history of reads, "
                     "builds, edits and writes reports nothing (C09_model_meets_oracle)",
                     "a write (any of the 8 writer models, any options, any instance state, also on its error exits) "
                     "leaves every pre-existing location, hence the snapshot of every caption set, unchanged; lifted "
@@ -201,6 +211,74 @@ def run(ctx):
     res["trusted_extra"] = ["harness/iso_worker.py, iso_snap.py, iso_core.py: heap observers (snapshot, id()-graph "
                             "walk, copy.deepcopy spy) and the comparison with the model's predictions"]
     return res
+
+
+def heap_program_stream(histories, r, res):
+    """wave 7: the writers executed as HEAP PROGRAMS (coq/model/HeapProg.v, request 902) on the same histories.
+    (a) program model vs real heap: snapshots of every set after every op and the other property-level observations
+        break the tie exactly as for the store model; effect-summary details (own-copy footprint, copy count, error
+        exit) are counted;
+    (b) program model vs store model (Iso.write): error exit, copy count, footprint (as a set), changed locations and
+        the emitted tokens (span open / close, SAMI blank sync), open_span after the call and every snapshot must agree -
+        two independently written models of the same code (the programs take nothing from Iso.write since the rendering
+        state machines and the instance registers are part of them); a mismatch is a model bug and
+        breaks the tie (it cannot be caused by a harmless rewrite of pycaption);
+    (c) request 903: the ownership analysis accepts the eight writer programs and rejects the six variants that skip
+        the copy / copy shallowly / assign before copying (the proof obligation, re-evaluated in the extracted code)."""
+    from wire import oracle_batch
+    dist = res["distribution"]
+    batch = [C.model_ops(h, o, r["pristine"]) for h, o in zip(histories, r["results"])]
+    progs = C.run_model(batch, 902)
+    n_writes, by_writer, assigned, raised, emitting = 0, {}, 0, 0, 0
+    details, mm = [], 0
+    for hi, (h, o, mp, ms) in enumerate(zip(histories, r["results"], progs, r["models"])):
+        for d in C.compare(h, o, mp, r["pristine"], "C09"):
+            d = dict(d)
+            d["what"] = "heap program: " + d["what"]
+            (details if d.get("detail") else r["disagreements"]).append((hi, d))
+        if mp is None or ms is None:
+            continue
+        for i, (op, (a, ta), (b, tb)) in enumerate(zip(h, ms, mp)):
+            if ta != tb:
+                mm += 1
+                r["disagreements"].append((hi, {"i": i, "what": "heap program vs store model: snapshots after the op differ"}))
+            if op["op"] != "write":
+                continue
+            n_writes += 1
+            by_writer[op["kind"]] = by_writer.get(op["kind"], 0) + 1
+            assigned += 1 if b["fp"] else 0
+            raised += 1 if b["err"] else 0
+            emitting += 1 if b["tokens"] else 0
+            for key in ("err", "copies", "changed_below", "tokens", "open"):
+                if a[key] != b[key]:
+                    mm += 1
+                    r["disagreements"].append((hi, {"i": i, "what": "heap program vs store model: %s" % key,
+                                                    "model": a[key], "impl": b[key]}))
+            if set(a["fp"]) != set(b["fp"]):
+                mm += 1
+                r["disagreements"].append((hi, {"i": i, "what": "heap program vs store model: footprint on the copy",
+                                                "model": sorted(set(a["fp"])), "impl": sorted(set(b["fp"]))}))
+    verdict = oracle_batch([(903, [])])[0]
+    ok903 = (verdict != [-1] and all(verdict[0]) and len(verdict[0]) == 8 and not any(verdict[1]) and len(verdict[1]) == 6
+             and all(verdict[2]) and len(verdict[2]) == 8 and not any(verdict[3]) and len(verdict[3]) == 5)
+    if not ok903:
+        r["disagreements"].append((0, {"i": 0, "what": "ownership analysis: writer programs accepted / variants rejected",
+                                       "model": verdict}))
+    counts = {}
+    for (hi, d) in details:
+        key = "%s:%s" % (d["detail"], histories[hi][d["i"]].get("kind"))
+        counts[key] = counts.get(key, 0) + 1
+    dist["heap_programs"] = {"writes_executed": n_writes, "by_writer": by_writer, "writes_that_assign_on_their_copy": assigned,
+                             "writes_that_raise": raised, "mismatches_with_store_model": mm,
+                             "ownership_and_assigned_before_read_analyses_8_accepted_11_variants_rejected": bool(ok903),
+                             "writes_that_emit_tokens": emitting,
+                             "detail_mismatches_with_code": counts,
+                             "detail_examples": list({json.dumps([d["detail"], histories[hi][d["i"]].get("kind"),
+                                                                  sorted(histories[hi][d["i"]].get("wopts") or {}), d.get("model"), d.get("impl")]):
+                                                      {"what": d["what"], "model": d.get("model"), "impl": d.get("impl"),
+                                                       "op": {k: v for k, v in histories[hi][d["i"]].items()
+                                                              if k in ("kind", "wopts", "kw")}}
+                                                      for (hi, d) in details if d["detail"] != "model-tree-vs-dag"}.values())[:8]}
 
 
 def replay(ctx, rec):
